@@ -15,6 +15,7 @@
  */
 
 #include <unifex/v1/async_manual_reset_event.hpp>
+#include <unifex/detail/verif_hooks.hpp>
 
 namespace unifex {
 inline namespace v1 {
@@ -25,6 +26,7 @@ void async_manual_reset_event::set() noexcept {
 
   // replace the stack of waiting operations with a sentinel indicating we've
   // been signalled
+  UNIFEX_VERIF_YIELD("scope.ev_xchg");
   void* top = state_.exchange(signalledState, std::memory_order_acq_rel);
 
   if (top == signalledState) {
@@ -36,6 +38,7 @@ void async_manual_reset_event::set() noexcept {
   // the stack and complete each operation.
   auto op = static_cast<_op_base*>(top);
   while (op != nullptr) {
+    UNIFEX_VERIF_YIELD("scope.ev_pop");
     std::exchange(op, op->next_)->set_value();
   }
 }
@@ -45,6 +48,7 @@ void async_manual_reset_event::start_or_wait(
   // Try to push op onto the stack of waiting ops.
   void* const signalledState = &evt;
 
+  UNIFEX_VERIF_YIELD("scope.ev_w_load");
   void* top = evt.state_.load(std::memory_order_acquire);
 
   do {
@@ -57,6 +61,7 @@ void async_manual_reset_event::start_or_wait(
     // note: on the first iteration, this line transitions op.next_ from
     //       indeterminate to a well-defined value
     op.next_ = static_cast<_op_base*>(top);
+    UNIFEX_VERIF_YIELD("scope.ev_w_cas");
   } while (!evt.state_.compare_exchange_weak(
       top,
       static_cast<void*>(&op),
